@@ -264,7 +264,7 @@ def search(ctx):
                     back = hp.load(path)
                     rng_ = float(vals.max() - vals.min())
                     dev = float(np.abs(back.values.squeeze() - vals).max())
-                    if dev > rng_ * 0.500001 / 255 * (1 + 1e-9) + 1e-12 * abs(vals).max():
+                    if not (dev <= rng_ * 0.500001 / 255 * (1 + 1e-9) + 1e-12 * abs(vals).max()):
                         ctx.violation("C16:tiff-quantisation", "TIFF round trip off by %.4g > stated quantisation %.4g" % (dev, rng_ * 0.500001 / 255), dict(info, kind="tiff"))
                     if not np.allclose(get_spacing(back), get_spacing(im)) or not all(_attrs_equal(back.attrs.get(k), im.attrs.get(k)) for k in ('medium_index', 'illum_wavelen', 'noise_sd')):
                         ctx.violation("C16:tiff-metadata", "TIFF round trip lost spacing or metadata", dict(info, kind="tiff"))
